@@ -277,7 +277,6 @@ func (s *CDX) dependencies(ctx context.Context, bom *sbom.Document) ([]cdx.Depen
 					return nil, fmt.Errorf("unable to locate node %s", targetID)
 				}
 
-				state.addedDict[targetID] = struct{}{}
 				depListCheck[targetID] = struct{}{}
 				targetStrings = append(targetStrings, targetID)
 			}
